@@ -655,7 +655,9 @@ impl Scenario for Hist {
         };
         let tracked = match self.flavour {
             Flavour::Reservations => false,
-            Flavour::Teardown | Flavour::Lifetimes => true,
+            // mostly payloads with a destructor (the destruction ledger needs them); a quarter without one: storage must come
+            // back all the same (a dropped listener's leftovers, a teardown), and code paths keyed on `needs_drop` differ
+            Flavour::Teardown | Flavour::Lifetimes => rng.chance(3, 4),
             _ => rng.chance(1, 2),
         };
         HistParams { sched: SchedSpec { policy: Policy::Uniform, seed: rng.next(), script: vec![], weak_cas: 0, stall: 0, starvation: 64, step_cap: 2_000_000, op_step_bound: 0, origin: 0, metric_origin: 0 }, kind, buffer, max_streams, tracked, ops, other_origin, initial_streams: if self.flavour == Flavour::Lifetimes {
